@@ -562,3 +562,21 @@ func Unscheduled(t *tr.W, r *rand.Rand, n int) {
 		}
 	}
 }
+
+func init() {
+	tr.Register("lru", func(t *tr.W, thorough bool) {
+		r := tr.Rng(16)
+		b := tr.EnvInt("VERIF_BUDGET", 1)
+		if thorough {
+			Sequential(t, r, b*tr.EnvInt("LRU_SEQ", 20000))
+			ConcExhaustive(t, r, b*tr.EnvInt("LRU_PROGS", 150), 4000)
+			ConcRandom(t, r, b*tr.EnvInt("LRU_RAND", 3000))
+			Unscheduled(t, r, tr.EnvInt("LRU_FREE", 300))
+		} else {
+			Sequential(t, r, b*tr.EnvInt("LRU_SEQ", 1500))
+			ConcExhaustive(t, r, b*tr.EnvInt("LRU_PROGS", 12), 1500)
+			ConcRandom(t, r, b*tr.EnvInt("LRU_RAND", 300))
+			Unscheduled(t, r, tr.EnvInt("LRU_FREE", 40))
+		}
+	})
+}
